@@ -214,3 +214,71 @@ func VerifH_C11_LoaderLines() {
 	verifrt.Assert(!m.Match(vWire([][]byte{{'z', 'z'}, {'x'}})), "text after '#' is ignored")
 	verifrt.Assert(m.Match(vWire([][]byte{{b}, {'y'}})) && !m.Match(vWire([][]byte{{'w'}, {b}, {'y'}})), "the last line (no newline) is a full: entry")
 }
+
+func vTextRule(kind int, labels [][]byte) []byte {
+	rule := []byte([]string{"", "domain:", "full:"}[kind])
+	for i, l := range labels {
+		if i > 0 {
+			rule = append(rule, '.')
+		}
+		rule = append(rule, l...)
+	}
+	return rule
+}
+
+func vLabelsEq(a, b [][]byte) bool {
+	if len(a) != len(b) {
+		return false
+	}
+	ok := true
+	for i := range a {
+		ok = verifrt.And(ok, verifrt.EqBytes(a[i], b[i]))
+	}
+	return ok
+}
+
+// vRuleMatches: declarative meaning of one text rule for a probe name (both as label lists, lower case).
+func vRuleMatches(kind int, rule, probe [][]byte) bool {
+	if kind == 2 {
+		return vLabelsEq(rule, probe)
+	}
+	if len(probe) < len(rule) {
+		return false
+	}
+	return vLabelsEq(rule, probe[len(probe)-len(rule):])
+}
+
+// VerifH_C11_TextSetOrder: two text entries of any kinds (bare / domain: / full:) whose names may be equal, related
+// (parent / child) or unrelated, loaded in either order into one MixMatcher: a probe name matches iff at least one
+// of the entries matches it on its own — whatever the order, and whatever the other entry is.
+func VerifH_C11_TextSetOrder() {
+	verifrt.Unwind(80)
+	lab := func(tag string) []byte {
+		b := verifrt.BytesN(tag, 1)
+		verifrt.Assume(b[0] >= 'a' && b[0] <= 'c') // three letters are enough to be equal or different
+		return b
+	}
+	tld := []byte{'t'}
+	ka, kb := verifrt.Choose("kindA", 3), verifrt.Choose("kindB", 3)
+	ra := [][]byte{lab("a1"), tld}
+	rb := [][]byte{lab("b1"), tld}
+	if verifrt.Bool("b.three-labels") {
+		rb = [][]byte{lab("b0"), rb[0], tld}
+	}
+	m := NewMixMatcher()
+	first, second := vTextRule(ka, ra), vTextRule(kb, rb)
+	if verifrt.Bool("b-first") {
+		first, second = second, first
+	}
+	verifrt.Assert(m.Add(first) == nil && m.Add(second) == nil, "well-formed entries are accepted")
+	verifrt.Reach("loaded")
+	probe := [][]byte{lab("p1"), tld}
+	switch verifrt.Choose("probe.labels", 3) {
+	case 1:
+		probe = [][]byte{lab("p0"), probe[0], tld}
+	case 2:
+		probe = [][]byte{lab("pp"), lab("p0"), probe[0], tld}
+	}
+	want := verifrt.Or(vRuleMatches(ka, ra, probe), vRuleMatches(kb, rb, probe))
+	verifrt.Assert(m.Match(vWire(probe)) == want, "the set matches exactly the union of its entries, independent of load order")
+}
